@@ -18,7 +18,7 @@ EXPLANATION = ("Bounded symbolic execution of the MIR of VisualMetric::metric (+
                "labelled Positional; everything else starts a new track. The voting type travels update -> merge -> record.")
 ASSUMPTIONS = ["metric: one candidate observation x one track observation; box area from {1,4,16}; every option of VisualMetricOptions symbolic; feature distance and every threshold any non-NaN f32; IoU from {0,.125,.25,.5,.75,1}, confidences from {1/16,1/4,1/2,1} / {1/32,1/4,3/4}, Mahalanobis distance from {0,4,11,11.125,20,200} (factors of products / quotients come from exact grids so that changed implementations are decided as well)",
                "voting: <= 2 detections x <= 2 tracks, streams of <= 3 results (quick) / 4 (thorough); ids pairwise distinct and > 0",
-               "appearance distances: None or a value of {0,.25,.5,1,2,4}; positional weights: None or a value of {0,.125,.25,.5,.75}; positional threshold from {.125,.25,.5}; max feature distance free f32 in [0,16]; min votes <= 3",
+               "appearance distances: None or a value of {0,.25,.5,1,2,4}; positional weights: None or a value of {0,.125,.25,.5,.75}; positional threshold from {.125,.25,.5}; max feature distance from {0,.125,.25,.375,.5,.75,1,1.5,2,3,4,16} (every order relation with the distance grid); min votes <= 3",
                "kuhn_munkres returns a maximum-weight assignment (contract); HashMap/HashSet iteration order nondeterministic; into_group_map / tee / sort_by by their documented contracts",
                "ties in weight are accepted either way"]
 OUTSIDE = ["whole histories with galleries (the gallery content is C13; the distance numbers C16)", "more than 2 x 2 contests"]
@@ -175,8 +175,7 @@ def _mk_voting(nq, nt, nres):
         fn = P.impl_methods[('VisualVoting', 'Voting', 'winners')][0][0]
         qids, tids, stream = _vstream(vm, nq, nt, nres)
         pthr = grid_f32(vm, 'positional_threshold', TGRID)
-        maxd = vm.fresh('f32', 'max_feature_distance')
-        vm.assume(fp_in(maxd, 0.0, 16.0))
+        maxd = grid_f32(vm, 'max_feature_distance', [0.0, 0.125, 0.25, 0.375, 0.5, 0.75, 1.0, 1.5, 2.0, 3.0, 4.0, 16.0])
         minv = vm.fresh(64, 'min_votes')
         vm.assume(z3.ULE(minv.e, 3))
         items = VecV(tuple(mk(P, 'ObservationMetricOk', **{'from': f, 'to': t, 'attribute_metric': SOME(w) if w is not None else NONE,
@@ -490,7 +489,7 @@ def _replay_voting(cex, v, vm):
         items.append("ObservationMetricOk::new(%du64, %du64, %s, %s)" % (cex_get(cex, 'from%d' % k), cex_get(cex, 'to%d' % k),
                                                                      gv('w%d' % k) if has_w else "None", gv('d%d' % k) if has_d else "None"))
     return (VOTING_REPLAY.replace("%(items)s", ", ".join(items)).replace("%(pthr)s", "%rf32" % grid_value(cex, vm, 'positional_threshold'))
-            .replace("%(maxd)s", rust_f32(cex_get(cex, 'max_feature_distance'))).replace("%(minv)d", str(cex_get(cex, 'min_votes'))))
+            .replace("%(maxd)s", "%rf32" % grid_value(cex, vm, 'max_feature_distance')).replace("%(minv)d", str(cex_get(cex, 'min_votes'))))
 
 
 VMM = "similari::trackers::visual_sort::metric::VisualMetric::"
